@@ -30,7 +30,7 @@ KINDS = ["plain", "plain-body", "exp-cl", "exp-chunked", "exp-nobody", "exp-refu
 
 def required_counters(tier):
     return ["interim:io-thread-path", "interim:worker-path", "expecting:bodyless", "expecting:refused", "waiting-clients",
-            "nonwaiting-clients", "calls_compared", "interims_checked", "sim:runs:forced", "sim:runs:random", "sim:runs:pct",
+            "nonwaiting-clients", "calls_compared", "interims_checked", "sim:runs:forced", "sim:runs:forced2", "sim:runs:random", "sim:runs:pct",
             "seg:one", "seg:bytes", "seg:cuts"]
 
 
@@ -233,6 +233,18 @@ def sim_scenarios():
     return out
 
 
+def sim_scenarios_small_reads():
+    """the expecting head and a few eager body bytes are read in small pieces while the
+    preceding request executes (for the two-pre-emption 'service-window' enumeration)"""
+    out = []
+    for la in (1, 2):
+        out.append({"adj": {"threads": 1, "channel_request_lookahead": la, "send_bytes": 1, "recv_bytes": 32}, "sndbuf": 4096,
+                    "conns": [{"requests": [{"n": 300, "k": "cl"},
+                                            {"m": "POST", "body": 90, "expect": True, "eager": 70, "n": 30, "k": "cl"}],
+                               "sndbuf": 4096, "waiting": True, "burst_first": True}]})
+    return out
+
+
 def gen_sim_scenario(rng):
     reqs = []
     for i in range(rng.choice([2, 3, 4])):
@@ -243,10 +255,15 @@ def gen_sim_scenario(rng):
             r["expect"] = True
             if rng.random() < 0.4:
                 r["chunked_req"] = True
+            elif rng.random() < 0.4:
+                r["eager"] = rng.choice([1, 3, 10])
         reqs.append(r)
     sb = rng.choice([512, 2048])
-    return {"adj": {"threads": rng.choice([1, 2]), "channel_request_lookahead": rng.choice([0, 1]),
-                    "asyncore_use_poll": rng.random() < 0.5, "send_bytes": 1}, "sndbuf": sb,
+    adj = {"threads": rng.choice([1, 2]), "channel_request_lookahead": rng.choice([0, 1]),
+           "asyncore_use_poll": rng.random() < 0.5, "send_bytes": 1}
+    if rng.random() < 0.3:
+        adj["recv_bytes"] = rng.choice([16, 32, 64])
+    return {"adj": adj, "sndbuf": sb,
             "conns": [{"requests": reqs, "sndbuf": sb, "waiting": rng.random() < 0.75, "pingpong": False}]}
 
 
@@ -353,6 +370,9 @@ def plan(tier, seed):
             specs.append({"mode": "sim-enum", "scn": s, "part": p, "parts": 4, "cap": 350 if tier == "quick" else None})
     for i in range(8 if tier == "quick" else 32):
         specs.append({"mode": "sim-random", "seed": seed * 1061 + i, "n": 120 if tier == "quick" else 1500})
+    for s in sim_scenarios_small_reads()[: 1 if tier == "quick" else 2]:
+        for p in range(8):
+            specs.append({"mode": "sim-enum2", "scn": s, "part": p, "parts": 8, "window": 80 if tier == "quick" else 200})
     return specs
 
 
@@ -386,6 +406,23 @@ def run_shard(spec):
         for step, tid in points[spec["part"] :: spec["parts"]]:
             run_sim_one(acc, scn, {"kind": "forced", "switches": {str(step): tid}}, "forced")
         acc.sample({"enumerated_scenario": scn, "single_preemptions": len(points)})
+    elif spec["mode"] == "sim-enum2":
+        install_probe()
+        scn = spec["scn"]
+
+        def first(site, cur):
+            return isinstance(site, tuple) and site[0] in ("recv", "handle_read", "received", "sock")
+
+        def second(site):
+            return isinstance(site, tuple) and site[0] in ("service", "send_continue")
+
+        k = 0
+        for sw in runner.double_preemptions(scn, first, window=spec.get("window", 80), second="target", second_filter=second):
+            k += 1
+            if k % spec["parts"] != spec["part"]:
+                continue
+            run_sim_one(acc, scn, {"kind": "forced", "switches": sw}, "forced2")
+        acc.sample({"double_preemption_scenario": scn, "schedules": k})
     else:
         install_probe()
         rng = random.Random(spec["seed"])
